@@ -153,7 +153,7 @@ pub fn eval(ctx: &Ctx, case: &Case) {
             let pk_ref = sm2::g_mul(&d);
             let e = sm2::digest_e(&id_bytes, &pk_ref, &msg);
             let pk = gm_sm2::key::Sm2PublicKey { point: lib_point(&pk_ref, &lam) };
-            let sk = gm_sm2::key::Sm2PrivateKey { d: scalar(&d), public_key: pk.clone() };
+            let sk = private_key_with(&d, pk.clone());
             let tag = format!("key-object-Z={}", lambda);
             // ZA through the public helper, for this representation of the point
             ctx.call();
